@@ -185,6 +185,9 @@ def main():
     r2 = np.random.RandomState(run.seed)
     r2.shuffle(rk); r2.shuffle(rk2); r2.shuffle(rk3); r2.shuffle(rest)
     chosen = (rk[:3] + rk2[:2] + rk3[:2] + rest[:1]) if run.quick else (rk[:24] + rk2[:8] + rk3[:8] + rest[:12])
+    # batches that do not divide evenly among the workers (5 files on 2 workers, 4 on 3): every file is still processed
+    # (larger than the batches TLC enumerates; the recorded schedules are validated against the same specification)
+    chosen = chosen + [(("small1", "saf1", "small2", "saf2", "big1"), 2), (("saf2", "small2", "small1", "saf1"), 3)][:2 if run.quick else 2]
     run.notes["configs_saf_header_then_no_header"] = len([k for k in chosen if risky3(k)])
     run.notes["configs_same_fft_class_longer_window_first"] = len([k for k in chosen if risky2(k)])
     runs = []
